@@ -288,7 +288,10 @@ def gen_sami(rng, tag, text=None, nlang=None, same_sync_twice=0.1, inline_lang=0
                 blank = rng.random() < 0.3
                 if blank:
                     feats.add('blank-sync')
-                    body = '&nbsp;'
+                    # a clearing paragraph: a no-break space, nothing at all, or blanks
+                    body = rng.choice(['&nbsp;', '&nbsp;', '', ' ', '&nbsp; '])
+                    if '&' not in body:
+                        feats.add('blank-sync-without-nbsp')
                     events[lang].append((ms, None, None))
                 else:
                     lines = (text or inline.plain_lines)(rng, f'{tag}.{ci}.{si}.{rep}', 'sami')
